@@ -12,7 +12,14 @@ under a fresh external port and registers again), and hosts start with Lamport c
 that what the introducer hands out / where it sends the puncture request after an address change and the 16 bit
 identifiers on the wire are decided by the same comparison (invariants HandsOutCurrent, HoldsWorking, IdentFits).
 The simulator's NAT boxes are validated by the same comparison (source rewriting, mapping / filter tables, every
-deliver-or-drop decision and its reason)."""
+deliver-or-drop decision and its reason).
+Several overlays on one Network (both bindings): every host runs the overlays "M" and "X" with one key, one endpoint
+and one Network, as an IPv8 service does; TLC's graph NatWalk_k1_svc.cfg (overlay X is the history of overlay M:
+requester and introduced peer may already hold each other there) is replayed, the recorded worlds run both overlays
+interleaved; Reach speaks about get_peers() of the overlay the introduction was asked in.
+Neighbours over IPv6 (binding T, model checked in NatWalk_k1_v6.cfg): candidates start with verified peers whose
+preferred address is IPv6 (entered through Network's public calls, as after a walk over IPv6; the simulated IPv4
+network does not carry datagrams to them): whom a peer may name in an old-style / new-style response."""
 from __future__ import annotations
 
 import json
@@ -33,6 +40,8 @@ KIND_OF = {246: ("ireq", False), 234: ("ireq", True), 245: ("iresp", False), 233
            250: ("preq", False), 232: ("preq", True), 249: ("punc", False), 231: ("punc", True)}
 DELIVER = {"DeliverIReq": "ireq", "DeliverIResp": "iresp", "DeliverPReq": "preq", "DeliverPunc": "punc"}
 _KEYS = {}
+NBR_ADDR = {"N1": ("fd00::11", 8090), "N2": ("fd00::12", 8090), "N3": ("fd00::13", 8090)}
+ALL_SVCS = ["M", "X"]
 SMALL_JVM = ("-XX:TieredStopAtLevel=1", "-XX:ParallelGCThreads=2")   # short runs: compiling costs more than it saves
 _ENV = {}
 
@@ -46,7 +55,8 @@ def env():
     loop = vloop.install(vloop.VLoop())
     from ipv8.community import Community
     from ipv8.keyvault.crypto import default_eccrypto
-    from ipv8.messaging.interfaces.udp.endpoint import UDPv4Address, UDPv4LANAddress
+    from ipv8.messaging.interfaces.udp.endpoint import UDPv4Address, UDPv4LANAddress, UDPv6Address
+    from ipv8.peer import Peer
     from ipv8.messaging.payload import (IntroductionRequestPayload, IntroductionResponsePayload,
                                         NewIntroductionRequestPayload, NewIntroductionResponsePayload,
                                         NewPuncturePayload, NewPunctureRequestPayload, PuncturePayload,
@@ -58,9 +68,14 @@ def env():
     class C13Community(Community):
         community_id = b"c13-nat-puncture-ovl"
 
-    for name in ["I", "A", "B1", "B2", "B3", "B4", "B5"]:
+    class C13Other(Community):
+        community_id = b"c13-another-overlay-"
+
+    for name in ["I", "A", "B1", "B2", "B3", "B4", "B5", *NBR_ADDR]:
         _KEYS[name] = default_eccrypto.generate_key("curve25519")
-    _ENV.update(loop=loop, Community=C13Community, UDPv4Address=UDPv4Address, UDPv4LANAddress=UDPv4LANAddress,
+    _ENV.update(loop=loop, Community=C13Community, classes={"M": C13Community, "X": C13Other}, Peer=Peer,
+                UDPv6Address=UDPv6Address,
+                svc_of_id={C13Community.community_id: "M", C13Other.community_id: "X"}, UDPv4Address=UDPv4Address, UDPv4LANAddress=UDPv4LANAddress,
                 nodes=nodes, simnet=simnet, auth=BinMemberAuthenticationPayload, dist=GlobalTimeDistributionPayload,
                 payloads={246: IntroductionRequestPayload, 234: NewIntroductionRequestPayload,
                           245: IntroductionResponsePayload, 233: NewIntroductionResponsePayload,
@@ -88,30 +103,47 @@ class World:
             n = topo["natOf"][h]
             if n != "-" and n not in self.boxes:
                 self.boxes[n] = self.net.nat(topo["kind"][n], ip=topo["extip"][n])
-        self.node, self.ov, self.name_of_key, self.errors, self._decoded = {}, {}, {}, [], {}
+        self.node, self.ov, self.ovs, self.name_of_key, self.errors, self._decoded = {}, {}, {}, {}, [], {}
+        self.svcs = list(topo.get("svcs") or ["M"])
+        self.incons = []
+        for n in NBR_ADDR:
+            self.name_of_key[_KEYS[n].pub().key_to_bin()] = n
         for h in self.hosts:
             ip, port = topo["sock"][h]
             n = topo["natOf"][h]
             node = e["nodes"].Node(self.net, key=_KEYS[h], nat=self.boxes.get(n), ip=ip, port=port)
-            ov = node.add(e["Community"])
-            # the host environment: this machine's interface address (the code derives its LAN/WAN estimates from it)
-            ov._get_lan_address = (lambda ip, port: lambda bootstrap=False: (ip, 0 if bootstrap else port))(ip, port)
-            ov.address_is_lan = (lambda ip: lambda a: a == ip)(ip)
-            ov._my_estimated_lan = None
-            ov.my_estimated_wan = ov.my_estimated_lan          # what EndpointListener.__init__ computes
-            ov.logger = _Spy(self.errors, h)
+            self.ovs[h] = {}
+            for s in self.svcs:      # one key, one endpoint, one Network: the layout of an IPv8 service
+                ov = node.add(e["classes"][s])
+                # the host environment: this machine's interface address (the code derives its LAN/WAN estimates from it)
+                ov._get_lan_address = (lambda ip, port: lambda bootstrap=False: (ip, 0 if bootstrap else port))(ip, port)
+                ov.address_is_lan = (lambda ip: lambda a: a == ip)(ip)
+                ov._my_estimated_lan = None
+                ov.my_estimated_wan = ov.my_estimated_lan          # what EndpointListener.__init__ computes
+                ov.logger = _Spy(self.errors, h)
+                self.ovs[h][s] = ov
+            ov = self.ovs[h]["M"]
+            for nb in topo.get("nbrs", {}).get(h, ()):
+                # history: a neighbour this host walked to over IPv6 (what on_introduction_response leaves behind)
+                peer = e["Peer"](_KEYS[nb].pub().key_to_bin(), e["UDPv6Address"](*NBR_ADDR[nb]))
+                peer.new_style_intro = True
+                node.network.add_verified_peer(peer)
+                node.network.discover_services(peer, [ov.community_id])
             if topo.get("gt0", {}).get(h, 0):
                 ov.my_peer.update_clock(topo["gt0"][h])          # uptime before the scenario starts
             self.node[h], self.ov[h] = node, ov
             self.name_of_key[node.my_peer.public_key.key_to_bin()] = h
+        self.svc_of_prefix = {ov.get_prefix(): s for s, ov in self.ovs["I"].items()}
         self.name_of_ep = {self.node[h].sim_endpoint: h for h in self.hosts}
-        self.contacted = {h: 0 for h in self.hosts}
-        self.walked = {h: set() for h in self.hosts}
+        self.contacted = {h: {s: 0 for s in self.svcs} for h in self.hosts}
+        self.walked = {h: {s: set() for s in self.svcs} for h in self.hosts}
 
     # ---------------------------------------------------------------- decoding / projection
     def decode(self, dg):
         e = self.e
         mid = dg.data[22]
+        if dg.data[:22] not in self.svc_of_prefix:
+            raise MachineryError("datagram with an unknown overlay prefix on the wire")
         if mid not in KIND_OF:
             raise MachineryError("unexpected message id %d on the wire" % mid)
         kind, ns = KIND_OF[mid]
@@ -126,7 +158,7 @@ class World:
         sender = self.name_of_ep[dg.sender]
         if signer is not None and signer != sender:
             raise MachineryError("datagram signed by %s sent from %s" % (signer, sender))
-        out = {"id": dg.seq, "from": sender, "src": addr(dg.src), "dst": addr(dg.dst), "via": dg.note or "wan",
+        out = {"id": dg.seq, "from": sender, "ov": self.svc_of_prefix[dg.data[:22]], "src": addr(dg.src), "dst": addr(dg.dst), "via": dg.note or "wan",
                "kind": kind, "ns": ns, "dest": ZERO, "slan": ZERO, "swan": ZERO, "ilan": ZERO, "iwan": ZERO,
                "ins": False, "ident": pl.identifier}
         if kind in ("ireq", "iresp"):
@@ -157,16 +189,25 @@ class World:
         nw = ov.network
         peers = []
         for p in nw.verified_peers:
-            a4 = p.addresses.get(e["UDPv4Address"])
-            if a4 is None or addr(p.address) != addr(a4):
-                raise MachineryError("verified peer without a preferred UDPv4 address: %r" % (p.addresses,))
-            peers.append({"k": self.name_of_key[p.public_key.key_to_bin()], "addr": addr(a4),
+            a4, a6 = p.addresses.get(e["UDPv4Address"]), p.addresses.get(e["UDPv6Address"])
+            if (a4 is None and a6 is None) or addr(p.address) != addr(a6 or a4):     # Peer.address: IPv6 before IPv4
+                raise MachineryError("verified peer whose preferred address is not its UDP address: %r" % (p.addresses,))
+            peers.append({"k": self.name_of_key[p.public_key.key_to_bin()], "addr": addr(a4 or ZERO),
+                          "a6": addr(a6 or ZERO),
                           "lan": addr(p.addresses.get(e["UDPv4LANAddress"], ZERO)), "ns": bool(p.new_style_intro)})
-        by_service = sorted(self.name_of_key[p.public_key.key_to_bin()] for p in ov.get_peers())
+        sid = e["svc_of_id"]
         known = [{"a": addr(a), "by": self.name_of_key.get(w.introduced_by, "?") if w.introduced_by else "",
-                  "ns": bool(w.new_style)} for a, w in nw._all_addresses.items()]
-        return {"wan": addr(ov.my_estimated_wan), "peers": peers, "known": known, "gt": ov.global_time,
-                "get_peers": by_service, "walkable": sorted(addr(a) for a in ov.get_walkable_addresses())}
+                  "ns": bool(w.new_style), "svc": sid.get(w.services, "?") if w.services else ""}
+                 for a, w in nw._all_addresses.items()]
+        svcs = [{"k": self.name_of_key.get(k, "?"), "s": sid.get(x, "?")}
+                for k, xs in nw.services_per_peer.items() for x in xs]
+        ovs = self.ovs[h]
+        return {"wan": {s: addr(o.my_estimated_wan) for s, o in ovs.items()}, "peers": peers, "known": known,
+                "svcs": svcs, "gt": ov.global_time,
+                "members": {s: sorted(self.name_of_key[p.public_key.key_to_bin()] for p in o.get_peers())
+                            for s, o in ovs.items()},
+                # (the method of the class: a sabotaged instance - negative control - still reports what the code says)
+                "walkable": {s: sorted(addr(a) for a in type(o).get_walkable_addresses(o)) for s, o in ovs.items()}}
 
     def nat_state(self, n):
         if n not in self.boxes:
@@ -181,12 +222,17 @@ class World:
         """The whole world in the shape of the NatWalk.tla variables."""
         hs = {h: self.host_state(h) for h in self.hosts}
         for h, s in hs.items():
-            if sorted(p["k"] for p in s["peers"]) != s["get_peers"]:
-                raise MachineryError("get_peers() differs from the verified peers at %s" % h)
+            for v, got in s["members"].items():
+                # Network.get_peers_for_service: the verified peers that advertised the service (specification: InSvc)
+                want = sorted(p["k"] for p in s["peers"] if {"k": p["k"], "s": v} in s["svcs"])
+                if want != got:
+                    self.incons.append("get_peers() of overlay %s at %s answers %s; the verified peers that advertised "
+                                       "the service are %s" % (v, h, got, want))
         nats = {n: self.nat_state(n) for n in self.topo["kind"]}
-        return {"wan": FrozenDict({h: s["wan"] for h, s in hs.items()}),
+        return {"wan": FrozenDict({h: FrozenDict(s["wan"]) for h, s in hs.items()}),
                 "peers": FrozenDict({h: frozenset(FrozenDict(p) for p in s["peers"]) for h, s in hs.items()}),
                 "known": FrozenDict({h: frozenset(FrozenDict(k) for k in s["known"]) for h, s in hs.items()}),
+                "svcs": FrozenDict({h: frozenset(FrozenDict(k) for k in s["svcs"]) for h, s in hs.items()}),
                 "gt": FrozenDict({h: s["gt"] for h, s in hs.items()}),
                 "mapping": FrozenDict({n: frozenset(FrozenDict(m) for m in s["mapping"]) for n, s in nats.items()}),
                 "allowed": FrozenDict({n: frozenset(FrozenDict(m) for m in s["allowed"]) for n, s in nats.items()}),
@@ -195,10 +241,10 @@ class World:
                 "nsent": self.net.seq}
 
     # ---------------------------------------------------------------- actions
-    def contact(self, h):
+    def contact(self, h, s="M"):
         e = self.e
-        ov = self.ov[h]
-        first = self.contacted[h] == 0
+        ov = self.ovs[h][s]
+        first = self.contacted[h][s] == 0
         try:
             if first:
                 ov.walk_to(e["UDPv4Address"](*self.topo["sock"]["I"]))
@@ -211,21 +257,21 @@ class World:
             return "%s of %s (global time %d) raised %s: %s" % (
                 "walk_to" if first else "send_introduction_request", h, ov.global_time, type(exc).__name__, exc)
         finally:
-            self.contacted[h] += 1
+            self.contacted[h][s] += 1
         return None
 
-    def intro_walk(self, h, a):
-        ov = self.ov[h]
+    def intro_walk(self, h, s, a):
+        ov = self.ovs[h][s]
         for w in ov.get_walkable_addresses():
             if addr(w) == addr(a):
-                self.walked[h].add(addr(a))
+                self.walked[h][s].add(addr(a))
                 try:
                     ov.walk_to(w)
                 except Exception as exc:  # noqa: BLE001
                     return "walk_to(%s) of %s (global time %d) raised %s: %s" % (
                         addr(a), h, ov.global_time, type(exc).__name__, exc)
                 return None
-        return "%s is not among get_walkable_addresses() of %s" % (a, h)
+        return "%s is not among get_walkable_addresses() of overlay %s at %s" % (a, s, h)
 
     def can_rebind(self, h):
         n = self.topo["natOf"][h]
@@ -280,7 +326,8 @@ class _Spy:
 def topo_of_state(st):
     return {"natOf": dict(st["natOf"]), "kind": dict(st["kind"]), "sock": {h: addr(a) for h, a in st["sock"].items()},
             "extip": dict(st["extip"]), "priv": sorted(st["priv"]), "walkers": sorted(st["walkers"]),
-            "contacts": dict(st["contacts"]), "gt0": dict(st["gt"])}
+            "contacts": {h: dict(c) for h, c in st["contacts"].items()}, "gt0": dict(st["gt"]),
+            "svcs": sorted(st["wan"]["I"]), "nbrs": {h: sorted(n) for h, n in st["nbrs"].items()}}
 
 
 def config_key(topo):
@@ -290,9 +337,9 @@ def config_key(topo):
 def apply_edge(w, name, args):
     """Execute one labelled spec step on the real world. -> None or a description of the divergence."""
     if name == "Contact":
-        return w.contact(args[0])
+        return w.contact(args[0], args[1])
     if name == "IntroWalk":
-        return w.intro_walk(args[0], args[1])
+        return w.intro_walk(args[0], args[1], args[2])
     if name in DELIVER or name == "Lose":
         ok, dec, fate, _rcv = w.deliver(args[0])
         if ok is None:
@@ -415,7 +462,9 @@ def _replay_chunk(chunk):
                     problem = "a message handler raised: %s" % errs[0]
             if problem is None:
                 d = diff_states(g.states[dst], w.project())
-                if d:
+                if w.incons:
+                    problem, d = w.incons[0], None
+                elif d:
                     problem = "real overlays / NAT boxes diverge from NatWalk.tla: %s" % _short(d)
             if problem:
                 first = (wi, "replay:%s:%s" % (name, ",".join(sorted(d)) if d else "step"),
@@ -440,7 +489,7 @@ def _dump_job(cfgname):
     return r, tmp
 
 
-def replay_graph(ctx, dumped, cfgname, tag, max_ops, pool_size, history=False):
+def replay_graph(ctx, dumped, cfgname, tag, max_ops, pool_size, history=False, svc=False):
     r, tmp = dumped
     try:
         if not r.ok:
@@ -455,6 +504,8 @@ def replay_graph(ctx, dumped, cfgname, tag, max_ops, pool_size, history=False):
     check_vacuity(r, cfgname, ("Rebind",) if history else ())
     ctx.add_tlc(tag, r)
     witness_per_config(ctx, g, tag)
+    if svc:
+        witness_svc(ctx, g, tag)
     if history:
         witness_history(ctx, g, tag)
         walks = history_walks(g, max_ops, ctx.seed)
@@ -531,6 +582,28 @@ def witness_per_config(ctx, g, tag):
     if missing:
         raise MachineryError("NatWalk %s: no completed introduction reachable in configurations %s" % (tag, missing[:3]))
     ctx.note("witness_" + tag, {"configurations_with_completed_introduction": len(g.init)})
+
+
+def witness_svc(ctx, g, tag):
+    """Non-vacuity of the other-overlay history: in every configuration some completed behaviour contains an
+    introduction of the same (requester, introduced peer) pair by I in overlay X - followed up before overlay M
+    started (Phased), so both held each other as verified peers - and then again in overlay M."""
+    idle_src = {s for (s, name, _a, _d) in g.edges if name == "Idle"}
+    missing = []
+    for init in g.init:
+        found = False
+        for s in _reachable_from(g, init) & idle_src:
+            st = g.states[s]
+            pairs = {(i["req"], i["cand"], i["ov"]) for i in st["intros"] if i["req"] in st["walkers"]}
+            if any((r, c, "X") in pairs for (r, c, o) in pairs if o == "M"):
+                found = True
+                break
+        if not found:
+            missing.append(config_key(topo_of_state(g.states[init])))
+    if missing:
+        raise MachineryError("NatWalk %s: no introduction in overlay M of a pair that met in overlay X reachable in %s"
+                             % (tag, missing[:3]))
+    ctx.note("witness_svc_" + tag, {"configurations_with_introduction_of_a_pair_that_met_in_another_overlay": len(g.init)})
 
 
 def _reachable_from(g, init):
@@ -621,7 +694,7 @@ LAN_SCHEMES = [lambda n, i: "192.168.%d.%d" % (n, i), lambda n, i: "10.%d.0.%d" 
 KINDS = ["fullCone", "addrRestricted", "portRestricted"]
 
 
-def random_topology(rng, force=None, history=True):
+def random_topology(rng, force=None, history=True, overlays=False, v6=False):
     k = rng.randint(1, 5)
     cands = ["B%d" % i for i in range(1, k + 1)]
     a_nat = rng.random() < 0.7 or force == "withA"
@@ -656,9 +729,19 @@ def random_topology(rng, force=None, history=True):
             sock[c] = ("80.0.2.%d" % (10 + idx), port)
     priv = sorted({sock[h][0] for h in natof if natof[h] != "-"})
     walkers = ["A"] if rng.random() < 0.4 else ["A", *cands]
-    contacts = {"I": 0, "A": rng.randint(1, 3)}
+    contacts = {"I": {"M": 0, "X": 0}, "A": {"M": rng.randint(1, 3), "X": 0}}
     for c in cands:
-        contacts[c] = rng.randint(1, 2)
+        contacts[c] = {"M": rng.randint(1, 2), "X": 0}
+    if overlays:
+        # the hosts also meet in another overlay on the same Network (interleaved with "M" in any order)
+        for h in ["A", *cands]:
+            contacts[h]["X"] = rng.randint(0, 2) if h != "A" else rng.randint(1, 2)
+    # neighbours some candidates hold over IPv6 when the schedule starts
+    nbrs = {h: [] for h in natof}
+    if v6:
+        for c in cands:
+            if rng.random() < 0.7:
+                nbrs[c] = sorted(rng.sample(sorted(NBR_ADDR), rng.randint(1, 3)))
     # histories: how long every host has been up (Lamport clock, shared by all its overlays) and how many NAT
     # mappings get lost while the schedule runs (hosts that can lose one register once more afterwards)
     gt0 = {h: rng.choice(CLOCKS) if history else 0 for h in natof}
@@ -666,10 +749,23 @@ def random_topology(rng, force=None, history=True):
     if rebinds:
         for h in natof:
             if natof[h] != "-":
-                contacts[h] += 1
-        contacts["A"] = max(contacts["A"], 3)
+                contacts[h]["M"] += 1
+        contacts["A"]["M"] = max(contacts["A"]["M"], 3)
     return {"natOf": natof, "kind": kind, "sock": sock, "extip": extip, "priv": priv, "walkers": sorted(walkers),
-            "contacts": contacts, "gt0": gt0, "rebinds": rebinds}
+            "contacts": contacts, "gt0": gt0, "rebinds": rebinds, "svcs": list(ALL_SVCS), "nbrs": nbrs}
+
+
+def norm_topo(topo):
+    """Topologies written for one overlay: the second overlay is there and idle, nobody has IPv6 neighbours."""
+    topo["svcs"] = list(ALL_SVCS)
+    topo["contacts"] = {h: (dict(c) if isinstance(c, dict) else {"M": c, "X": 0}) for h, c in topo["contacts"].items()}
+    for c in topo["contacts"].values():
+        for s in ALL_SVCS:
+            c.setdefault(s, 0)
+    topo["nbrs"] = {h: list((topo.get("nbrs") or {}).get(h, ())) for h in topo["natOf"]}
+    topo.setdefault("gt0", {h: 0 for h in topo["natOf"]})
+    topo.setdefault("rebinds", 0)
+    return topo
 
 
 CLOCKS = [0, 0, 3, 65531, 65534, 65535, 65536, 131069, 131071, 2 ** 24 - 2, 2 ** 31 - 500]
@@ -677,8 +773,7 @@ CLOCKS = [0, 0, 3, 65531, 65534, 65535, 65536, 131069, 131071, 2 ** 24 - 2, 2 **
 
 def record_trace(rng, topo, sabotage=None, schedule=None):
     """Run one seeded schedule on a real world. -> trace dict for NatWalkTrace.tla"""
-    topo.setdefault("gt0", {h: 0 for h in topo["natOf"]})
-    topo.setdefault("rebinds", 0)
+    norm_topo(topo)
     if "rseed" not in topo:
         topo["rseed"] = rng.getrandbits(32) if schedule is None else 0
     random.seed(topo["rseed"])        # get_peer_for_introduction() draws from the global generator
@@ -689,6 +784,19 @@ def record_trace(rng, topo, sabotage=None, schedule=None):
         ep = w.node["I"].sim_endpoint
         real_send = ep.send
         ep.send = lambda a, pkt: None if pkt[22] in (250, 232) else real_send(a, pkt)
+    if sabotage == "walkable-any-verified":
+        # negative control: an overlay does not walk to addresses of peers the Network holds for ANOTHER overlay
+        for h in w.hosts:
+            for o in w.ovs[h].values():
+                o.get_walkable_addresses = (lambda o: lambda: [
+                    a for a in o.network.get_walkable_addresses(o.community_id)
+                    if not any(a in p.addresses.values() for p in o.network.verified_peers)])(o)
+    if sabotage == "style-blind":
+        # negative control: the peer to introduce is picked without looking at the style of the response
+        for h in w.hosts:
+            for o in w.ovs[h].values():
+                o.get_peer_for_introduction = (lambda o: lambda exclude=None, new_style=False: (
+                    lambda av: random.choice(av) if av else None)([p for p in o.get_peers() if p != exclude]))(o)
     events = []
 
     def log(ev, host, problem=None):
@@ -725,20 +833,22 @@ def record_trace(rng, topo, sabotage=None, schedule=None):
         ikey = w.node["I"].my_peer.public_key.key_to_bin()
         hold = rebinds < topo["rebinds"] and not forced
         for h in w.hosts:
-            if h != "I" and w.contacted[h] < topo["contacts"][h]:
-                if hold and 1 <= w.contacted[h] == topo["contacts"][h] - 1:
-                    continue       # every host keeps its last request until the mappings have been lost
-                if w.contacted[h] == 0 or w.ov[h].network.get_verified_by_public_key_bin(ikey) is not None:
-                    calls.append(("contact", h))
+            for s in w.svcs:
+                if h != "I" and w.contacted[h][s] < topo["contacts"][h][s]:
+                    if hold and 1 <= w.contacted[h][s] == topo["contacts"][h][s] - 1:
+                        continue       # every host keeps its last request until the mappings have been lost
+                    if w.contacted[h][s] == 0 or w.ov[h].network.get_verified_by_public_key_bin(ikey) is not None:
+                        calls.append(("contact", h, s))
         if all(p["kind"] not in ("preq", "punc") for p in inflight):
             for h in topo["walkers"]:
-                for a in sorted(addr(x) for x in w.ov[h].get_walkable_addresses()):
-                    if a not in w.walked[h]:
-                        calls.append(("walk", h, a))
+                for s in w.svcs:
+                    for a in sorted(addr(x) for x in w.ovs[h][s].get_walkable_addresses()):
+                        if a not in w.walked[h][s]:
+                            calls.append(("walk", h, s, a))
         if hold and not inflight and not any(c[0] == "walk" for c in calls):
             # the system is at rest: a NAT may lose a mapping now (preferably of a host that registers again)
             cands = [h for h in w.hosts if w.can_rebind(h)]
-            again = [h for h in cands if w.contacted[h] < topo["contacts"][h]]
+            again = [h for h in cands if any(w.contacted[h][s] < topo["contacts"][h][s] for s in w.svcs)]
             for h in (again or cands):
                 calls.append(("rebind", h))
             if not calls:
@@ -761,9 +871,9 @@ def record_trace(rng, topo, sabotage=None, schedule=None):
         else:
             ch = rng.choice(calls)
         if ch[0] == "contact":
-            log({"act": "Contact", "h": ch[1]}, ch[1], w.contact(ch[1]))
+            log({"act": "Contact", "h": ch[1], "s": ch[2]}, ch[1], w.contact(ch[1], ch[2]))
         elif ch[0] == "walk":
-            log({"act": "IntroWalk", "h": ch[1], "a": list(ch[2])}, ch[1], w.intro_walk(ch[1], ch[2]))
+            log({"act": "IntroWalk", "h": ch[1], "s": ch[2], "a": list(ch[3])}, ch[1], w.intro_walk(ch[1], ch[2], ch[3]))
         elif ch[0] == "rebind":
             rebinds += 1
             log({"act": "Rebind", "h": ch[1]}, ch[1], w.rebind(ch[1]))
@@ -776,7 +886,7 @@ def record_trace(rng, topo, sabotage=None, schedule=None):
     if not events or events[-1]["act"] != "Final":
         events.append({"act": "Final", "h": "", "net": w.inflight(),
                        "world": {h: _host_json(w.host_state(h)) for h in w.hosts}})
-    verdict = {h: sorted(p["k"] for p in w.host_state(h)["peers"]) for h in w.hosts}
+    verdict = {h: w.host_state(h)["members"] for h in w.hosts}
     return {"topo": topo, "events": events, "get_peers": verdict}
 
 
@@ -787,8 +897,10 @@ def _record_batch(args):
     batch = []
     for i in range(per):
         force = ["withA", "nat", "pub", "withI"][i % 4] if b == 0 and i < 8 else None
-        # two of three worlds have a history (lost mappings, long uptimes), the others are static
-        batch.append(record_trace(rng, random_topology(rng, force, history=i % 3 != 2)))
+        # two of three worlds have a history (lost mappings, long uptimes), the others are static; every second world
+        # also meets in the other overlay, two of five worlds have candidates with IPv6 neighbours
+        batch.append(record_trace(rng, random_topology(rng, force, history=i % 3 != 2, overlays=i % 2 == 1,
+                                                       v6=i % 5 in (0, 3))))
     return batch
 
 
@@ -804,9 +916,10 @@ def run_schedule(topo, schedule):
         def choice(self, options):
             want = self.items[0]
             for o in options:
-                if (want["act"] == "Contact" and o[0] == "contact" and o[1] == want["h"]) or \
+                if (want["act"] == "Contact" and o[0] == "contact" and o[1] == want["h"] and o[2] == want.get("s", "M")) or \
                    (want["act"] == "Rebind" and o[0] == "rebind" and o[1] == want["h"]) or \
-                   (want["act"] == "IntroWalk" and o[0] == "walk" and o[1] == want["h"] and list(o[2]) == list(want["a"])) or \
+                   (want["act"] == "IntroWalk" and o[0] == "walk" and o[1] == want["h"] and o[2] == want.get("s", "M")
+                    and list(o[3]) == list(want["a"])) or \
                    (want["act"] in ("Deliver", "Lose") and o[0] == "deliver" and o[1] == want["id"]):
                     self.items.pop(0)
                     return o
@@ -828,14 +941,14 @@ def replay_file(path):
             m = re.match(r"(\w+)(\[.*\])$", lbl)
             name, args = m.group(1), json.loads(m.group(2))
             if name == "Contact":
-                sched.append({"act": "Contact", "h": args[0]})
+                sched.append({"act": "Contact", "h": args[0], "s": args[1] if len(args) > 1 else "M"})
             elif name == "IntroWalk":
-                sched.append({"act": "IntroWalk", "h": args[0], "a": args[1]})
+                sched.append({"act": "IntroWalk", "h": args[0], "s": args[1] if len(args) > 2 else "M", "a": args[-1]})
             elif name == "Rebind":
                 sched.append({"act": "Rebind", "h": args[0]})
             elif name != "Idle":
                 sched.append({"act": "Deliver", "id": args[0]})
-    topo.setdefault("gt0", {h: 0 for h in topo["natOf"]})
+    norm_topo(topo)
     topo["rebinds"] = sum(1 for e in sched if e["act"] == "Rebind")
     trace = record_trace(None, topo, schedule=sched)
     rc = 0
@@ -846,15 +959,16 @@ def replay_file(path):
         print("%s: %s" % (cfg, "accepted, invariants hold" if r.ok else "%s at event %s" % (r.violated, l)))
         rc = rc or (0 if r.ok else 1)
     for e in trace["events"][:-1]:
-        print("  %-9s %s -> sent %s" % (e["act"], {k: v for k, v in e.items() if k in ("h", "id", "a", "why")},
-                                       [(p["kind"], p["src"], p["dst"], p["via"]) for p in e["emitted"]]))
+        print("  %-9s %s -> sent %s" % (e["act"], {k: v for k, v in e.items() if k in ("h", "s", "id", "a", "why")},
+                                       [(p["ov"], p["kind"], p["src"], p["dst"], p["via"]) for p in e["emitted"]]))
     print("get_peers() at the end:", trace["get_peers"])
     return rc
 
 
 def _host_json(s):
-    return {"wan": list(s["wan"]), "peers": s["peers"], "known": s["known"], "gt": s["gt"],
-            "walkable": [list(a) for a in s["walkable"]]}
+    return {"wan": {v: list(a) for v, a in s["wan"].items()}, "peers": s["peers"], "known": s["known"],
+            "svcs": s["svcs"], "gt": s["gt"], "members": s["members"],
+            "walkable": {v: [list(a) for a in x] for v, x in s["walkable"].items()}}
 
 
 def _validate_job(args):
@@ -902,7 +1016,7 @@ def _rejected_job(args):
     return out
 
 
-BRIEF = ("act", "h", "id", "a", "why")
+BRIEF = ("act", "h", "s", "id", "a", "why")
 
 
 def judge_traces(ctx, traces, r, tag, strict):
@@ -998,9 +1112,9 @@ def corrupt(trace, how):
                 old = first.setdefault(p["k"], p["addr"])
                 if p["addr"] != old:
                     # get_walkable_addresses(): introduced addresses that are not the address of a verified peer
-                    if any(k["a"] == p["addr"] and k["by"] for k in st["known"]) and p["addr"] not in st["walkable"]:
-                        st["walkable"] = sorted([*st["walkable"], p["addr"]])
-                    st["walkable"] = [a for a in st["walkable"] if a != old]
+                    if any(k["a"] == p["addr"] and k["by"] for k in st["known"]) and p["addr"] not in st["walkable"]["M"]:
+                        st["walkable"]["M"] = sorted([*st["walkable"]["M"], p["addr"]])
+                    st["walkable"]["M"] = [a for a in st["walkable"]["M"] if a != old]
                     p["addr"] = old
                     changed = True
         return t if changed else None
@@ -1015,9 +1129,36 @@ def corrupt(trace, how):
     if how == "lan-as-wan":
         # the requester keeps only the LAN candidate of an introduced peer behind another NAT
         for e in t["events"]:
-            if e["act"] == "Deliver" and len(e.get("host", {}).get("walkable", [])) >= 2:
-                e["host"]["walkable"] = e["host"]["walkable"][:1]
+            if e["act"] == "Deliver" and len(e.get("host", {}).get("walkable", {}).get("M", [])) >= 2:
+                e["host"]["walkable"]["M"] = e["host"]["walkable"]["M"][:1]
                 return t
+        return None
+    if how == "other-overlay-peer":
+        # an overlay is claimed not to offer an introduced address for walking because a peer of ANOTHER overlay has it
+        for e in t["events"]:
+            st = e.get("host")
+            if not st:
+                continue
+            for v in ALL_SVCS:
+                for p in st["peers"]:
+                    if p["k"] in st["members"][v]:
+                        continue
+                    for a in (p["addr"], p["lan"]):
+                        if a in st["walkable"][v]:
+                            st["walkable"][v] = [x for x in st["walkable"][v] if x != a]
+                            return t
+        return None
+    if how == "v6-in-old-style":
+        # a host with IPv6 neighbours is claimed to name one of them in an old-style (IPv4 only) response
+        for e in t["events"]:
+            nb = t["topo"]["nbrs"].get(e.get("h"), [])
+            if e["act"] == "Deliver" and nb:
+                resp = [p for p in e["emitted"] if p["kind"] == "iresp" and not p["ns"] and p["iwan"] != list(ZERO)]
+                preq = [p for p in e["emitted"] if p["kind"] == "preq"]
+                if resp and preq:
+                    resp[0].update(iwan=list(NBR_ADDR[nb[0]]), ilan=list(ZERO), ins=True)
+                    preq[0].update(dst=list(NBR_ADDR[nb[0]]))
+                    return t
         return None
     raise MachineryError(how)
 
@@ -1073,8 +1214,12 @@ def run(tier, seed, replay=None):
     ctl_jobs = {"ctl_nopuncture": ("NatWalk.tla", "NatWalk_ctl_nopuncture.cfg", ctl_kw),
                 "ctl_early": ("NatWalk.tla", "NatWalk_ctl_early.cfg", ctl_kw),
                 "ctl_norefresh": ("NatWalk.tla", "NatWalk_ctl_norefresh.cfg", dict(ctl_kw, deadlock_off=True)),
-                "ctl_wideident": ("NatWalk.tla", "NatWalk_ctl_wideident.cfg", ctl_kw)}
-    jobs = {}
+                "ctl_wideident": ("NatWalk.tla", "NatWalk_ctl_wideident.cfg", ctl_kw),
+                "ctl_svcwalk": ("NatWalk.tla", "NatWalk_ctl_svcwalk.cfg", dict(ctl_kw, deadlock_off=True)),
+                "ctl_style": ("NatWalk.tla", "NatWalk_ctl_style.cfg", dict(ctl_kw, deadlock_off=True))}
+    # candidates with IPv6 neighbours (whom a peer may name in an old-style / a new-style response): model checked here,
+    # bound to the code by the recorded schedules (the code's choice among the eligible peers is random)
+    jobs = {"k1_v6": ("NatWalk.tla", "NatWalk_k1_v6.cfg", dict(mc, java_opts=SMALL_JVM))}
     if not quick:
         jobs["k2"] = ("NatWalk.tla", "NatWalk_k2.cfg", dict(mc, timeout=3000))
         jobs["k1_followall"] = ("NatWalk.tla", "NatWalk_k1_all.cfg", dict(mc, timeout=3000))
@@ -1083,9 +1228,10 @@ def run(tier, seed, replay=None):
         jobs["k1_history2"] = ("NatWalk.tla", "NatWalk_k1_hist2.cfg", dict(mc, timeout=3000))
         jobs["ctl_norefresh_addr"] = ("NatWalk.tla", "NatWalk_ctl_norefresh_addr.cfg",
                                       {"deadlock_off": True, "coverage": False})
-    side = multiprocessing.get_context("fork").Pool(len(jobs) + len(ctl_jobs) + 7)
+    side = multiprocessing.get_context("fork").Pool(len(jobs) + len(ctl_jobs) + 8)
     try:
-        dumps = {c: side.apply_async(_dump_job, (c,)) for c in ("NatWalk_k1.cfg", "NatWalk_k1_conc.cfg")}
+        dumps = {c: side.apply_async(_dump_job, (c,)) for c in ("NatWalk_k1.cfg", "NatWalk_k1_conc.cfg",
+                                                                "NatWalk_k1_svc.cfg")}
         pending = {k: side.apply_async(_tlc_job, (v,)) for k, v in jobs.items()}
 
         # ---- T (recording): seeded schedules on real worlds; TLC validates them while the replay runs
@@ -1112,9 +1258,11 @@ def run(tier, seed, replay=None):
                                    "schedule": [{k: v for k, v in e.items() if k in BRIEF}
                                                 for e in t["events"][:li + 1]]})
         ctl = []
-        for how in ("nat-kind", "puncture-target", "forgot-peer", "lan-as-wan", "stale-address", "wide-identifier"):
+        for how in ("nat-kind", "puncture-target", "forgot-peer", "lan-as-wan", "stale-address", "wide-identifier",
+                    "other-overlay-peer", "v6-in-old-style"):
             bad = next((c for c in (corrupt(t, how) for t in traces) if c is not None), None)
-            spare = HISTORY_TOPOLOGY if how in ("stale-address", "wide-identifier") else SABOTAGE_TOPOLOGY
+            spare = HISTORY_TOPOLOGY if how in ("stale-address", "wide-identifier") else \
+                SVC_TOPOLOGY if how == "other-overlay-peer" else V6_TOPOLOGY if how == "v6-in-old-style" else SABOTAGE_TOPOLOGY
             for k in range(200 if bad is None else 0):   # no recorded world offers the situation: make one
                 bad = corrupt(record_trace(random.Random(seed + 1000 + k), dict(spare)), how)
                 if bad is not None:
@@ -1135,7 +1283,23 @@ def run(tier, seed, replay=None):
                 break
         else:
             frozen = None
-        obs_ctl = [("ReachAtEnd", sab), ("HandsOutCurrent", frozen)]
+        for k in range(200):   # a schedule in which A and B1 meet in overlay X and I then introduces B1 to A in overlay M
+            svcsab = record_trace(random.Random(seed + 1 + k), json.loads(json.dumps(SVC_TOPOLOGY)),
+                                  sabotage="walkable-any-verified")
+            end = svcsab["events"][-1]["world"]
+            if "B1" in end["A"]["members"]["X"] and "B1" not in end["A"]["members"]["M"] and any(
+                    p["kind"] == "iresp" and p["from"] == "I" and p["ov"] == "M" and addr(p["iwan"]) != ZERO
+                    and p["dst"][0] == SVC_TOPOLOGY["extip"]["A"] for ev in svcsab["events"] for p in ev.get("emitted", [])):
+                break
+        else:
+            svcsab = None
+        for k in range(200):   # a schedule in which B1 picks an IPv6 neighbour for its old-style answer to A
+            blind = record_trace(random.Random(seed + 1 + k), json.loads(json.dumps(V6_TOPOLOGY)), sabotage="style-blind")
+            if any("handler_error" in ev and ev.get("h") == "B1" for ev in blind["events"]):
+                break
+        else:
+            blind = None
+        obs_ctl = [("ReachAtEnd", sab), ("HandsOutCurrent", frozen), ("ReachAtEnd", svcsab), ("ReachAtEnd", blind)]
         for inv, how in (("HoldsWorkingAtEnd", "stale-held"), ("IdentFits", "wide-identifier")):
             # (stale-held on the one-candidate world: there the requester can only have learned the other address
             # from a valid introduction, which is what HoldsWorking speaks about)
@@ -1162,6 +1326,9 @@ def run(tier, seed, replay=None):
             tick("k1 graph there")
             replay_graph(ctx, d, "NatWalk_k1.cfg", "k1", 32000 if quick else None, workers, history=True)
             tick("k1 replayed")
+            d = dumps["NatWalk_k1_svc.cfg"].get()
+            replay_graph(ctx, d, "NatWalk_k1_svc.cfg", "k1_svc", 9000 if quick else None, workers, svc=True)
+            tick("k1_svc replayed")
         finally:
             for fut in dumps.values():
                 try:
@@ -1206,6 +1373,8 @@ def run(tier, seed, replay=None):
             seen = ctl_obs.get()
             what = ["an introducer whose puncture requests are suppressed",
                     "an introducer that keeps the first address of its peers after their NAT mapping was lost",
+                    "an overlay that does not walk to introduced addresses of peers verified in another overlay",
+                    "a peer that picks its introduction without regard to the style of the response",
                     "a requester that keeps the first address of an introduced peer after contacting its present one",
                     "an introduction request carrying the unreduced Lamport clock as identifier"]
             tid = 0
@@ -1230,6 +1399,12 @@ def run(tier, seed, replay=None):
             elif k == "ctl_norefresh_addr":
                 ctx.control("specification in which a verified peer's address is not refreshed violates HoldsWorking",
                             r.violated == "HoldsWorking")
+            elif k == "ctl_svcwalk":
+                ctx.control("specification in which an overlay does not walk to addresses of peers verified in another "
+                            "overlay violates Reach", r.violated == "Reach")
+            elif k == "ctl_style":
+                ctx.control("specification in which a peer with IPv6 neighbours picks its introduction without regard to "
+                            "the style of the response violates Reach", r.violated == "Reach")
             elif k == "ctl_wideident":
                 ctx.control("specification with unreduced identifiers violates IdentFits once the clock passes 2^16",
                             r.violated == "IdentFits")
@@ -1260,6 +1435,12 @@ HISTORY_TOPOLOGY = {"natOf": {"I": "-", "A": "A", "B1": "B1"},
                     "extip": {"A": "90.0.0.1", "B1": "90.0.0.11"}, "priv": ["10.11.0.2", "192.168.1.2"],
                     "walkers": ["A"], "contacts": {"I": 0, "A": 3, "B1": 3},
                     "gt0": {"I": 131070, "A": 65533, "B1": 65535}, "rebinds": 2}
+
+
+SVC_TOPOLOGY = dict(SABOTAGE_TOPOLOGY, contacts={"I": {"M": 0, "X": 0}, "A": {"M": 1, "X": 2}, "B1": {"M": 1, "X": 1}})
+
+
+V6_TOPOLOGY = dict(SABOTAGE_TOPOLOGY, contacts={"I": 0, "A": 1, "B1": 1}, nbrs={"B1": ["N1", "N2", "N3"]})
 
 
 def reintroduced_after_rebind(trace):
